@@ -195,6 +195,21 @@ class SymBytes:
             p = p + s.length
         return SymBytes(out)
 
+    def coalesced(self):
+        """Merge neighbouring file segments that are provably adjacent in the file (decided exactly)."""
+        out = []
+        for s in self.segs:
+            if out and out[-1].kind == "file" and s.kind == "file" and out[-1].src == s.src:
+                p = out[-1]
+                gap = (p.start + p.length) != s.start
+                if gap is False or (gap is not True and eng().decide_case(gap) is None):
+                    out[-1] = Seg("file", p.src, p.start, p.length + s.length)
+                    continue
+            if isinstance(s.length, SymInt) and eng().decide_case(s.length > 0) is None:
+                continue  # provably empty
+            out.append(s)
+        return SymBytes(out)
+
     # -- comparisons with constants
     def __eq__(self, o):
         if isinstance(o, (bytes, bytearray)):
